@@ -17,7 +17,21 @@ type Clause struct {
 }
 
 type LoopSpec struct {
-	Inv []Clause
+	Inv     []Clause
+	Updates []GhostUpdate
+}
+
+// GhostUpdate: ghost assignment executed at the end of every iteration of a loop (before the
+// invariant is re-established).
+type GhostUpdate struct {
+	Var string
+	Sx  *Sx
+	Src string
+}
+
+type GhostVar struct {
+	Name, Sort string
+	Init       *Sx
 }
 
 type GhostParam struct{ Name, Sort string }
@@ -26,6 +40,7 @@ type Contract struct {
 	Func     string
 	File     string
 	Ghosts   []GhostParam
+	GhostVars []GhostVar
 	Lets     map[string]*Sx
 	LetOrder []string
 	Requires []Clause
@@ -246,6 +261,19 @@ func (sp *Spec) LoadContractFile(path, defaultPkg string) error {
 			}
 			parts := strings.SplitN(rest, " ", 2)
 			c.Ghosts = append(c.Ghosts, GhostParam{parts[0], strings.TrimSpace(parts[1])})
+		case "ghostvar":
+			if err := need(); err != nil {
+				return err
+			}
+			parts := strings.SplitN(rest, " ", 3)
+			if len(parts) < 3 {
+				return fmt.Errorf("%s: bad ghostvar %q", path, d)
+			}
+			sx, err := ParseOne(parts[2])
+			if err != nil {
+				return fmt.Errorf("%s: %s: %v", path, c.Func, err)
+			}
+			c.GhostVars = append(c.GhostVars, GhostVar{parts[0], parts[1], sx})
 		case "let":
 			if err := need(); err != nil {
 				return err
@@ -296,6 +324,21 @@ func (sp *Spec) LoadContractFile(path, defaultPkg string) error {
 			lab := ""
 			if m := labelRe.FindStringSubmatch(w); m != nil {
 				w, lab = m[1], m[2]
+			}
+			if w == "update" {
+				p2 := strings.SplitN(strings.TrimSpace(parts[2]), " ", 2)
+				if len(p2) < 2 {
+					return fmt.Errorf("%s: bad loop update %q", path, d)
+				}
+				sx, err := ParseOne(p2[1])
+				if err != nil {
+					return fmt.Errorf("%s: %s: %v", path, c.Func, err)
+				}
+				if c.Loops[n] == nil {
+					c.Loops[n] = &LoopSpec{}
+				}
+				c.Loops[n].Updates = append(c.Loops[n].Updates, GhostUpdate{p2[0], sx, p2[1]})
+				continue
 			}
 			if w != "invariant" {
 				return fmt.Errorf("%s: bad loop directive %q", path, d)
